@@ -788,6 +788,24 @@ func (c *PathCtx) selectInstr(fr *frame, instr *ssa.Select) Value {
 		}
 		chosen = r[k]
 	}
+	// busy-loop detection: a goroutine that keeps selecting the receive from one and the
+	// same CLOSED, drained channel (always ready, changes nothing) spins. After 200
+	// consecutive such selects it is recorded as a spinning goroutine and parked for the
+	// rest of the path, so that the path can go on (vBusy() reports it).
+	if chosen >= 0 && !states[chosen].send && states[chosen].ch != nil && states[chosen].ch.closed && len(states[chosen].ch.buf) == 0 {
+		g := c.cur
+		if g.spinCh == states[chosen].ch {
+			g.spin++
+		} else {
+			g.spinCh, g.spin = states[chosen].ch, 1
+		}
+		if g.spin > 200 {
+			c.side["busy"] = g.name + " at " + c.where(fr, instr)
+			c.block(func() bool { return false }, "spinning goroutine parked")
+		}
+	} else {
+		c.cur.spinCh, c.cur.spin = nil, 0
+	}
 	res := Tuple{mkBV(64, uint64(int64(chosen))), tFalse}
 	recvOk := false
 	var recvVals []Value
